@@ -219,3 +219,10 @@ def run(ctx):
                           {"X": Xn.tolist(), "mean": mu.tolist()}, {"what": "to_saving-values"})
     from harness import helpers as _helpers
     _helpers.capa_helpers(ctx)
+
+    from harness.variants import variants_stream
+    from skchange.anomaly_detectors import CAPA as _CAPA, MVCAPA as _MVCAPA
+    variants_stream(ctx, "CAPA", lambda: _CAPA(min_segment_length=2, max_segment_length=30), ctx.n(3, 16),
+                    flat_make=lambda: _CAPA(min_segment_length=2, collective_penalty_scale=1e6, point_penalty_scale=1e6))
+    variants_stream(ctx, "MVCAPA", lambda: _MVCAPA(min_segment_length=2, max_segment_length=30), ctx.n(3, 16),
+                    flat_make=lambda: _MVCAPA(min_segment_length=2, collective_penalty_scale=1e6, point_penalty_scale=1e6))
